@@ -470,6 +470,15 @@ func FirstDiff(a, b string) string {
 			y = lb[i]
 		}
 		if x != y {
+			if len(x) > 600 || len(y) > 600 {
+				// long lines: show the region where they part
+				k := 0
+				for k < len(x) && k < len(y) && x[k] == y[k] {
+					k++
+				}
+				from := max(k-120, 0)
+				return fmt.Sprintf("line %d (first %d bytes equal: %s):\n  A: ...%s\n  B: ...%s", i+1, k, Trunc(x, 160), Trunc(x[from:], 420), Trunc(y[from:], 420))
+			}
 			return fmt.Sprintf("line %d:\n  A: %s\n  B: %s", i+1, Trunc(x, 600), Trunc(y, 600))
 		}
 	}
